@@ -1,6 +1,7 @@
 """Driver of C12 / C02 (run as a subprocess under strace).
 usage: c12_driver.py <spec.json> <out.json>
-spec: {folder, conf, fsync, request: {method, path, data, login, headers}, list_before: [dirs], list_after: [dirs]}
+spec: {folder, conf, fsync, request: {method, path, data, login, headers}, list_before: [dirs], list_after: [dirs],
+       fsize: RLIMIT_FSIZE during the request (optional), followups: [requests]}
 Marks (stat of /rv-mark/<label>) cut the trace: setup-done, req, end."""
 import json
 import os
@@ -34,6 +35,14 @@ def main():
     mark("setup-done")
     out["before"] = listing(spec["folder"], spec.get("list_before", []))
     r = spec["request"]
+    limit = None
+    if spec.get("fsize"):
+        # a real short write: the kernel writes up to the limit, then fails with EFBIG (SIGXFSZ ignored)
+        import resource
+        import signal
+        signal.signal(signal.SIGXFSZ, signal.SIG_IGN)
+        limit = resource.getrlimit(resource.RLIMIT_FSIZE)
+        resource.setrlimit(resource.RLIMIT_FSIZE, (spec["fsize"], limit[1]))
     mark("req")
     try:
         st, h, b = srv.request(r["method"], r["path"], data=r.get("data"), login=r.get("login"), **r.get("headers", {}))
@@ -43,6 +52,8 @@ def main():
         out["status"] = -1
         out["error"] = repr(e)
     mark("end")
+    if limit is not None:
+        resource.setrlimit(resource.RLIMIT_FSIZE, limit)
     out["after"] = listing(spec["folder"], spec.get("list_after", []))
     if spec.get("followups"):
         out["followups"], errs = [], []
